@@ -1,9 +1,10 @@
 (* Property C01 -- Call arguments survive fragmentation byte-for-byte.
-   (writer/reader theorems over all scripts are in preparation in Proofs/FragWP.v, FragRP.v;
-   this file lists what is proved now.) *)
+   Definitions used in the statements: Spec/FragSpec.v (denote), Spec/FragOk.v (frames_ok,
+   ck_chain, script3, arg_bytes), Proofs/FragRP.v (arg_read, arg_helper, data_of, arg_ok,
+   sticky, r_final), Proofs/FragRoundtrip.v (kind_ok, ck_fresh). *)
 From Coq Require Import ZArith List Bool.
 From Verif Require Import Base.Wrap Base.Bytes Gen.GenConsts Gen.GenFrame Model.TypedBuf Model.Messages
-  Model.Crc Model.Frag Model.FragWire Spec.FragSpec Spec.FragOk Proofs.FragWireP Proofs.FragWP.
+  Model.Crc Model.Frag Model.FragWire Spec.FragSpec Spec.FragOk Proofs.FragWireP Proofs.FragWP Proofs.FragRP Proofs.FragRoundtrip.
 Import ListNotations.
 Local Open Scope Z_scope.
 
@@ -41,7 +42,80 @@ Theorem C01_writer : forall (capf : bool -> Z) ck a1 a2 a3,
     ck_chain ck (ws_out st).
 Proof. exact writer_correct. Qed.
 
+(* READER, any read sizes to end-of-stream: for every well-formed fragment sequence with valid
+   running checksums that denotes [a1;a2;a3], reading each argument with ANY positive read
+   sizes until end-of-stream returns exactly a1, a2, a3, ends Complete and releases every
+   fragment exactly once *)
+Theorem C01_reader_eof : forall fs ck0 a1 a2 a3,
+  wf fs -> ck_new (first_ctype fs) = Some ck0 -> ck_chain ck0 fs ->
+  denote (chunks_of fs) = [a1; a2; a3] ->
+  forall ns1 ns2 ns3,
+  Forall (fun n => 0 < n) ns1 -> Forall (fun n => 0 < n) ns2 -> Forall (fun n => 0 < n) ns3 ->
+  zsum ns1 > zlen a1 -> zsum ns2 > zlen a2 -> zsum ns3 > zlen a3 ->
+  exists l1 st1 l2 st2 l3 st3,
+    arg_read false ns1 (r_init fs) = Some (0, l1, 0, st1) /\
+    arg_read false ns2 st1 = Some (0, l2, 0, st2) /\
+    arg_read true ns3 st2 = Some (0, l3, 0, st3) /\
+    Forall code_ok l1 /\ Forall code_ok l2 /\ Forall code_ok l3 /\
+    data_of l1 = a1 /\ data_of l2 = a2 /\ data_of l3 = a3 /\
+    rs_state st3 = c_fragmentingReadComplete /\ rs_fin st3 = true /\
+    rs_rel st3 = Z.of_nat (length fs) /\ rs_err st3 = 0.
+Proof. exact reader_eof. Qed.
+
+(* ROUND TRIP (writer then reader), all write/flush patterns x all read-size patterns x all
+   capacities x all checksum types: exactly the same three byte strings *)
+Theorem C01_roundtrip : forall capf kind a1 a2 a3,
+  3 <= capf true -> 5 <= capf false -> kind_ok kind ->
+  exists codes st, w_run capf (script3 a1 a2 a3) (w_init (ck_fresh kind)) [] = Some (codes, st) /\
+  forall ns1 ns2 ns3,
+  Forall (fun n => 0 < n) ns1 -> Forall (fun n => 0 < n) ns2 -> Forall (fun n => 0 < n) ns3 ->
+  zsum ns1 > zlen (arg_bytes a1) -> zsum ns2 > zlen (arg_bytes a2) -> zsum ns3 > zlen (arg_bytes a3) ->
+  exists l1 st1 l2 st2 l3 st3,
+    arg_read false ns1 (r_init (ws_out st)) = Some (0, l1, 0, st1) /\
+    arg_read false ns2 st1 = Some (0, l2, 0, st2) /\
+    arg_read true ns3 st2 = Some (0, l3, 0, st3) /\
+    data_of l1 = arg_bytes a1 /\ data_of l2 = arg_bytes a2 /\ data_of l3 = arg_bytes a3 /\
+    r_final (Z.of_nat (length (ws_out st))) st3.
+Proof. exact roundtrip_eof. Qed.
+
+(* the same through ArgReadHelper.Read (read all, ensure empty, close), any buffer size *)
+Theorem C01_roundtrip_helper : forall capf kind a1 a2 a3,
+  3 <= capf true -> 5 <= capf false -> kind_ok kind ->
+  exists codes st, w_run capf (script3 a1 a2 a3) (w_init (ck_fresh kind)) [] = Some (codes, st) /\
+  forall n1 n2 n3, 0 < n1 -> 0 < n2 -> 0 < n3 ->
+  exists st1 st2 st3,
+    arg_helper false n1 (r_init (ws_out st)) = Some (0, arg_bytes a1, 0, st1) /\
+    arg_helper false n2 st1 = Some (0, arg_bytes a2, 0, st2) /\
+    arg_helper true n3 st2 = Some (0, arg_bytes a3, 0, st3) /\
+    r_final (Z.of_nat (length (ws_out st))) st3.
+Proof. exact roundtrip_helper. Qed.
+
+(* EXACT-LENGTH READS and every other read pattern (sizes >= 0, Close without having seen
+   end-of-stream): never a panic; an argument whose Begin, reads and Close all succeeded was
+   read exactly; the data returned is always a prefix of the right argument (never shifted
+   or foreign); after the first error every later operation returns that error and no data *)
+Theorem C01_exact_read : forall capf kind a1 a2 a3,
+  3 <= capf true -> 5 <= capf false -> kind_ok kind ->
+  exists codes st, w_run capf (script3 a1 a2 a3) (w_init (ck_fresh kind)) [] = Some (codes, st) /\
+  forall ns1 ns2 ns3,
+  Forall (fun n => 0 <= n) ns1 -> Forall (fun n => 0 <= n) ns2 -> Forall (fun n => 0 <= n) ns3 ->
+  exists cb1 l1 cc1 st1 cb2 l2 cc2 st2 cb3 l3 cc3 st3,
+    arg_read false ns1 (r_init (ws_out st)) = Some (cb1, l1, cc1, st1) /\
+    arg_read false ns2 st1 = Some (cb2, l2, cc2, st2) /\
+    arg_read true ns3 st2 = Some (cb3, l3, cc3, st3) /\
+    (arg_ok cb1 l1 cc1 -> data_of l1 = arg_bytes a1) /\
+    (arg_ok cb2 l2 cc2 -> data_of l2 = arg_bytes a2) /\
+    (arg_ok cb3 l3 cc3 -> data_of l3 = arg_bytes a3) /\
+    (exists r1, arg_bytes a1 = data_of l1 ++ r1) /\ (exists r2, arg_bytes a2 = data_of l2 ++ r2) /\
+    (exists r3, arg_bytes a3 = data_of l3 ++ r3) /\
+    sticky (ops_of cb1 l1 cc1 ++ ops_of cb2 l2 cc2 ++ ops_of cb3 l3 cc3).
+Proof. exact roundtrip_safe. Qed.
+
 Print Assumptions C01_writer.
+Print Assumptions C01_reader_eof.
+Print Assumptions C01_roundtrip.
+Print Assumptions C01_roundtrip_helper.
+Print Assumptions C01_exact_read.
 Print Assumptions C01_frame_bytes.
 Print Assumptions C01_fragment_layout.
 
